@@ -11,3 +11,10 @@ Proof. exact DecProofs.decode_total. Qed.
 
 Theorem unmarshal_total : unmarshal_total_statement.
 Proof. exact DecProofs.unmarshal_total. Qed.
+
+(* proto.Scan / proto.Parse (field-level scanner, proto/message.go): EVERY byte string yields fields or an error within
+   len(b) iterations, never an out-of-range slice. Model: Proto/RewriteModel.v Parse + Proto/ScanModel.v, tied to the
+   code by correspondence on every byte string the harness generates (p.scan cases). *)
+From Verif Require Proto.ScanModel Proto.ScanProofs.
+Theorem scan_total : Proto.ScanModel.scan_total_statement.
+Proof. exact Proto.ScanProofs.scan_total. Qed.
